@@ -333,6 +333,7 @@ Fixpoint q_mem (q : list bytes * N) (l : list (list bytes * N)) : bool :=
    and commands *)
 Definition expected_followup (c : cache) (inst : bytes) : option (bytes * N) :=
   if negb (valid_instance_name inst) then None
+  else if negb (has_ptr_to c inst) then None      (* fix 48ec5c0: the chain ends when no PTR points to the instance *)
   else match bm_get inst (c_srv c) with
        | None => Some (inst, TY_ANY)
        | Some recs =>
